@@ -70,13 +70,14 @@ type PureDef struct {
 }
 
 type SpecDB struct {
+	Lemmas    []*Clause
 	Contracts map[string]*Contract
 	Pures     map[string]*PureDef
 	Errors    []string
 }
 
 var clauseKeywords = map[string]bool{"func": true, "loop": true, "requires": true, "ensures": true, "modifies": true,
-	"sweep": true, "modular": true, "trusted": true, "invariant": true, "pure": true, "unroll": true, "names": true, "let": true, "end": true, "sums": true, "demands": true, "covers": true, "hint": true}
+	"sweep": true, "modular": true, "trusted": true, "invariant": true, "pure": true, "unroll": true, "names": true, "let": true, "end": true, "sums": true, "demands": true, "covers": true, "hint": true, "lemma": true}
 
 func ParseSpecs(lines []SpecLine) *SpecDB {
 	db := &SpecDB{Contracts: map[string]*Contract{}, Pures: map[string]*PureDef{}}
@@ -143,6 +144,14 @@ func ParseSpecs(lines []SpecLine) *SpecDB {
 			c.Loops[key] = curLoop
 		case "end":
 			curLoop = nil
+		case "lemma":
+			cl, err := parseClause("lemma", it.rest)
+			if err != nil {
+				errf(it, "%v", err)
+				continue
+			}
+			cl.File, cl.Line = it.File, it.Line
+			db.Lemmas = append(db.Lemmas, cl)
 		case "requires", "ensures", "invariant", "demands":
 			if cur == nil {
 				errf(it, "%s outside a func block", it.kw)
